@@ -4,7 +4,12 @@ FL on fit_offsets.get_series_time_offsets: each generated interval collection
 is presented (a) as is, (b) permuted, (c) with every interval's own axis shifted
 by a constant, (d) reversed (another interval becomes the internal zero); the
 origin-fixed master curve and the set of included intervals must agree.  An
-independent union-find decides the main body.  Coq correspondence:
+independent union-find decides the main body.  get_connected_components is also
+run on arbitrary level->series dicts (the domain of the theorems of
+Proofs/ComponentsSpec.v) against a graph-search oracle and the model.  CL: planted
+datasets through the CLI; the stored master curves against an independent
+least-squares alignment of the stored crossings with ANOTHER interval as internal
+zero and the rows in another order (origin at the highest level).  Coq correspondence:
 get_connected_components against Model/Components.v, and the offsets of the main
 body against the exact model evaluated on the head mapping that
 build_head_mapping produced.
@@ -170,6 +175,138 @@ def check_collections(cols, out, label):
         out.violation('corr', 'model offsets_from_mapping <> get_series_time_offsets (ids / offsets / levels)', case=off_meta[i])
 
 
+def gen_sah(rng):
+    """Arbitrary dict level -> set of series, any insertion order: the domain of the Coq theorems about
+    get_connected_components (levels that bridge several earlier groups, empty sets, isolated levels)."""
+    nl = rng.randrange(0, 13)
+    ncl = rng.randrange(1, 4)
+    clusters = [list(range(4 * c, 4 * c + rng.randrange(1, 5))) for c in range(ncl)]
+    sah = {}
+    for h in rng.sample(range(-30, 30), nl):
+        r = rng.random()
+        if r < 0.05:
+            sah[h] = set()
+        elif r < 0.2 and ncl > 1:       # a level bridging two clusters (merges earlier groups)
+            a, b = rng.sample(clusters, 2)
+            sah[h] = {rng.choice(a), rng.choice(b)}
+        else:
+            cl = rng.choice(clusters)
+            sah[h] = set(rng.sample(cl, min(len(cl), rng.choice([1, 2, 2, 3]))))
+    return sah
+
+
+def level_classes(sah):
+    """Independent decision: classes of levels under 'linked by a chain of levels sharing a series' (graph search)."""
+    left, classes = list(sah), []
+    while left:
+        todo, cls = [left.pop(0)], set()
+        while todo:
+            h = todo.pop()
+            cls.add(h)
+            for h2 in list(left):
+                if sah[h] & sah[h2]:
+                    left.remove(h2)
+                    todo.append(h2)
+        classes.append(frozenset(cls))
+    return set(classes)
+
+
+def check_sah_direct(sahs, out, label):
+    """get_connected_components on arbitrary dicts: oracle (reachability classes, longest first) + model."""
+    import spowtd.fit_offsets as fo
+    cases, meta = [], []
+    for sah in sahs:
+        out.evaluations += 1
+        case = dict(level='CC', sah=[[int(h), sorted(int(s) for s in ss)] for h, ss in sah.items()])
+        try:
+            comps = fo.get_connected_components(dict((h, set(ss)) for h, ss in sah.items()))
+        except Exception as e:  # pylint: disable=broad-except
+            out.violation('oracle', 'get_connected_components raised %r' % (e,), case=case)
+            continue
+        got = [frozenset(cc) for cc in comps]
+        want = level_classes(sah)
+        multi = sum(1 for c in want if len(c) > 1)
+        out.count('direct-sah:%s' % ('>=2 multi-level classes' if multi >= 2 else '1 multi-level class' if multi else 'singletons'))
+        if set(got) != want or len(got) != len(want) or any(len(set(cc)) != len(cc) for cc in comps):
+            out.violation('oracle', 'components %s are not the reachability classes %s of the levels'
+                          % ([tuple(cc) for cc in comps], sorted(sorted(c) for c in want)), case=case)
+        elif any(len(a) < len(b) for a, b in zip(comps, comps[1:])):
+            out.violation('oracle', 'components %s are not sorted longest first' % ([tuple(cc) for cc in comps],), case=case)
+        if multi >= 2 and len(sah) >= 5:
+            out.nontriv(('c08cc', str(case['sah'])))
+        cases.append('(%s, %s)' % (
+            C.clist(['(%s, %s)' % (C.cZ(h), C.cnats(ss)) for h, ss in case['sah']]),
+            C.clist([C.cZs(list(k)) for k in comps])))
+        meta.append(case)
+    bad, errs, _ = C.run_case_shards(
+        PROP, label + '_ccdirect', PRE, 'list (Z * list nat) * list (list Z)',
+        'fun c => list_eqb (list_eqb Z.eqb) (components (fst c)) (snd c)', cases, shard=400)
+    out.corr_errors += errs
+    for i in bad:
+        out.violation('corr', 'model components <> get_connected_components (arbitrary dict)', case=meta[i])
+
+
+# ------------------------------------------------------------- command level: another internal zero
+
+def independent_master(rows):
+    """rows: (interval, level, crossing).  Least-squares offsets with the FIRST interval as internal zero
+    (the code fixes the last one of its own ordering), master curve = level means of (offset + crossing),
+    origin at the highest level.  numpy lstsq on the full design matrix, nothing shared with spowtd."""
+    ivs = sorted({r[0] for r in rows})
+    levels = sorted({r[1] for r in rows})
+    ii = {s: i for i, s in enumerate(ivs)}
+    li = {h: i for i, h in enumerate(levels)}
+    # unknowns: offsets x_s (s != first) and level means m_h ; equations x_s + c - m_h = 0
+    n_x = len(ivs) - 1
+    A = np.zeros((len(rows), n_x + len(levels)))
+    b = np.zeros(len(rows))
+    for r, (s, h, c) in enumerate(rows):
+        if ii[s] > 0:
+            A[r, ii[s] - 1] = 1.0
+        A[r, n_x + li[h]] = -1.0
+        b[r] = -c
+    sol = np.linalg.lstsq(A, b, rcond=None)[0]
+    m = sol[n_x:]
+    return {h: float(m[li[h]] - m[li[levels[-1]]]) for h in levels}
+
+
+def check_command_level(plans, out, label):
+    """`rise` / `recession` through the CLI: the stored master curve must be the one obtained from the stored
+    crossings with a different internal zero and presentation order, origin at its highest level."""
+    from harness import curves_common as CC
+    for plan in plans:
+        res = CC.build_from_plan(PROP, plan, name='cl_' + label)
+        out.evaluations += 1
+        out.count('CL:%s' % res['status'])
+        if res['status'] != 'ok':
+            continue
+        gstep = plan['grid_step']
+        for kind, rows_key, offs_key, view_key in (('rise', 'rising_interval_zeta', 'rising_interval', 'avg_rise'),
+                                                   ('recession', 'recession_interval_zeta', 'recession_interval',
+                                                    'avg_recession')):
+            rows = [tuple(r) for r in res[rows_key]]
+            if len({r[0] for r in rows}) < 2:
+                out.count('CL:%s:<2 intervals' % kind)
+                continue
+            want = independent_master(list(reversed(rows)))
+            got = {int(round(z / gstep)): v for z, v in res[view_key]}
+            scale = 1 + max(abs(v) for v in want.values())
+            case = dict(level='CL', plan=plan, kind=kind)
+            if sorted(got) != sorted(want):
+                out.violation('oracle', '%s master curve has levels %s, the stored crossings have %s'
+                              % (kind, sorted(got), sorted(want)), case=case)
+                continue
+            worst = max(want, key=lambda h: abs(want[h] - got[h]))
+            if abs(want[worst] - got[worst]) > 1e-6 * scale:
+                out.violation('oracle', '%s master curve depends on the internal zero: stored curve is %r at level %d, '
+                              'the same crossings aligned with another interval as internal zero (origin at the highest '
+                              'level) give %r' % (kind, got[worst], worst, want[worst]), case=case)
+            n_at_top = len([r for r in rows if r[1] == max(want)])
+            if len({r[0] for r in rows}) >= 3:
+                out.nontriv(('cl', kind, len(rows), n_at_top))
+            out.count('CL:%s:intervals at top level=%d' % (kind, min(n_at_top, 4)))
+
+
 def run(ctx, out):
     C.import_spowtd()
     seed, tier = ctx['seed'], ctx['tier']
@@ -177,16 +314,33 @@ def run(ctx, out):
     n = 150 if tier == 'quick' else 1500
     cols = [gen_collection(rng) for _ in range(n)]
     check_collections(cols, out, 'fl')
+    rng2 = C.rng_for(seed, PROP, 'sah')
+    check_sah_direct([gen_sah(rng2) for _ in range(400 if tier == 'quick' else 4000)], out, 'cc')
+    from harness import curves_common as CC
+    plans = []
+    for k in range(10 if tier == 'quick' else 100):
+        rng3 = C.rng_for(seed, PROP, 'cl', k)
+        plans.append(CC.make_plan(rng3, n_events=rng3.randrange(3, 8), noise=(k % 2 == 0)))
+    check_command_level(plans, out, 'cl')
     out.rule = ('Interval collections (2-7 pieces of one decreasing curve, some noisy, half with a planted disconnected '
                 'group) x {as is, permuted, per-interval axis shifts, reversed} through get_series_time_offsets. '
-                'Non-trivial: planted disconnected group, unique largest component, >= 3 intervals included.')
+                'Non-trivial: planted disconnected group, unique largest component, >= 3 intervals included. '
+                'Plus arbitrary level->series dicts (0-12 levels, series in 1-3 clusters with occasional bridging levels, any insertion order) through '
+                'get_connected_components: reachability-class oracle and model; non-trivial: >= 5 levels, >= 2 classes '
+                'of more than one level.')
     out.samples = [dict(grid=cols[0][1], series=[[t.tolist(), H.tolist()] for t, H in cols[0][0]][:3])]
     out.assumptions += ['crossing positions come from the implementation\'s build_head_mapping (C12 covers them)',
                         'the sort by initial level is replicated in the harness',
-                        'component search correctness: correspondence + union-find oracle, not proved']
+                        'component search correctness is proved for Model/Components.v (Proofs/ComponentsSpec.v); that the model equals the Python is sampled (correspondence) and cross-checked by the union-find oracle']
 
 
 def replay(case, out):
     C.import_spowtd()
+    if case.get('level') == 'CL':
+        check_command_level([case['plan']], out, 'replay')
+        return
+    if case.get('level') == 'CC':
+        check_sah_direct([dict((h, set(ss)) for h, ss in case['sah'])], out, 'replay')
+        return
     series = [(np.array(t), np.array(H)) for t, H in case['series']]
     check_collections([(series, case['grid'], 0)], out, 'replay')
